@@ -50,8 +50,6 @@ class Prop(BaseProp):
         tr = case["trains"]
         ts, te = case["ts"], case["te"]
         N = len(tr)
-        if N >= 3:
-            ctx.count("N>=3")
         sts = ctx.trains(case)
         a, b = sts[0], sts[1]
         kwc = case["kw"]
